@@ -46,8 +46,8 @@ META = {
         design_ref="DESIGN.md §4 C10", technique="Lean 4 refinement proof (table vs. file-as-written, all histories) + conformance against the real file plugin incl. fsnotify-driven refresh",
         note="Trusted: Lean kernel; the hand-written model of plugins/file/plugin.go; line/field splitting and net.ParseMAC/ParseIP are inputs (oracle answers recorded per line by the harness); fsnotify delivery is not modelled (bounded wait)."),
     "C08": dict(
-        text="Lean invariant proof by induction over every message history: the history monitor (in pool, aligned, size, lifetimes, disjoint across clients, one IA_PD per IA_PD) never fails on the model, for every well-formed pool, every hint shape and every allocator policy; the same monitor judges the implementation's replies while the model is stepped alongside.",
-        design_ref="DESIGN.md §4 C08", technique="Lean 4 invariant proof over all message histories + conformance against the real prefix plugin", note=PFX_NOTE),
+        text="Lean invariant proof by induction over every message history: the history monitor (in pool, aligned, size, lifetimes, disjoint across clients, one IA_PD per IA_PD) never fails on the model, for every well-formed pool, every hint shape and every allocator policy; the same monitor judges the implementation's replies while the model is stepped alongside. End to end (SYS_pd_delivered6, SYS_pd_roundtrip): in every chain of built-in plugins the reply carries exactly the IA_PD options prefix built, and their wire form decodes to the same blocks.",
+        design_ref="DESIGN.md §4 C08", technique="Lean 4 invariant proof over all message histories + composed-server theorems + translator unit prefix6 + conformance against the real prefix plugin, alone and inside whole chains", note=PFX_NOTE),
     "C09": dict(
         text="Same invariant: a prefix once delegated is returned to an exact renewal and to a hint-less IA_PD with a lifetime not shorter than what remained, every delegated prefix is remembered, retransmissions allocate nothing; other clients' leases are untouched.",
         design_ref="DESIGN.md §4 C09", technique="Lean 4 invariant proof over all message histories + conformance against the real prefix plugin", note=PFX_NOTE),
@@ -59,16 +59,16 @@ META = {
         design_ref="DESIGN.md §4 C12", technique="Lean 4 theorem (decision table + relay mirroring for every depth) + conformance through the server capture hook", note=DISP_NOTE),
     "C13": dict(
         text="Lean theorems for handlers that are arbitrary functions: the invocation log is positions 0..k-1 in order, each given its predecessor's response, k ends at the first stop, the response returned last is what is sent and nil sends nothing; LoadPlugins yields exactly the supported listed plugins in order or an error. The same predicate judges the logged invocations of scripted handlers run by the real server loop.",
-        design_ref="DESIGN.md §4 C13", technique="Lean 4 theorem (fold semantics for arbitrary handler functions, loader characterisation) + conformance with scripted handlers and synthetic registered plugins + go/ast facts F3, F7", note=DISP_NOTE),
+        design_ref="DESIGN.md §4 C13", technique="Lean 4 theorem (fold semantics for arbitrary handler functions, loader characterisation, server.Start model) + translator units loadplugins, start + conformance with scripted handlers, synthetic registered plugins, whole chains of real plugins and the whole server through server.Start + go/ast facts F3, F7, F9", note=DISP_NOTE),
     "C15": dict(
         text="Lean theorem for arbitrary handlers: destination, port, link-level flag and interface pinning of every reply equal the RFC 2131 §4.1 table as the property states it, for all giaddr/ciaddr/flag/reply-type/yiaddr/binding combinations; no missing interface within the property's configuration space.",
-        design_ref="DESIGN.md §4 C15", technique="Lean 4 theorem (decision table, all inputs) + conformance through the server capture hook + go/ast facts F5, F6", note=DISP_NOTE),
+        design_ref="DESIGN.md §4 C15", technique="Lean 4 theorem (decision table, all inputs; link-level frame model) + translator units dispatch4, ethernet, start (Go source regenerated into Lean, proved equal to the models) + conformance through the server capture hook, the composed-server engine and the real sendEthernet on the loopback interface + go/ast facts F5, F6, F8", note=DISP_NOTE),
     "C02": dict(
         text="Lean invariant proof by induction over every history of requests and restarts (any hardware-address lengths, any times, any allocator policy, any re-marking order): the history monitor 'in range, configured lease time, sticky per client, injective, unanswered only when exhausted' never fails on the model; the same monitor judges the implementation's trace while the model is stepped alongside.",
         design_ref="DESIGN.md §4 C02", technique="Lean 4 invariant proof over all request/restart histories + conformance against the real range plugin on a real sqlite file", note=RANGE_NOTE),
     "C03": dict(
         text="Lean theorem: at every reachable state a restart on the written table succeeds and restores the same bindings and allocator bitmap for every re-marking order; stored expiry within one second of the promised lease end. The pre-repair loader (net.ParseMAC) is refuted by a concrete witness that the corpus replays on the code.",
-        design_ref="DESIGN.md §4 C03", technique="Lean 4 invariant proof (restart at every reachable state) + conformance with a restart on a copy of the database at generated crash points", note=RANGE_NOTE),
+        design_ref="DESIGN.md §4 C03", technique="Lean 4 invariant proof (restart at every reachable state) + translator units range4, storage + conformance with a restart on a copy of the database at generated crash points, the promised lease read off the reply", note=RANGE_NOTE),
     "C20": dict(
         text="Lean theorems over a BitVec-64 model that follows ipcalc.go statement by statement: Offset equals the block index or overflow, in either argument order; AddPrefixes equals base+n*2^(128-p) or overflow; the two are inverse — for all 128-bit operands, all p in 0..128, all n. The model is tied to the code by exact differential comparison on carry/borrow-biased operands every run.",
         design_ref="DESIGN.md §4 C20", technique="Lean 4 theorem (unbounded, BitVec/Nat arithmetic) + differential conformance of the model against allocators.Offset/AddPrefixes",
